@@ -230,7 +230,9 @@ class Gen:
         funcs, off = [], r.choice([0, 0x10, 0x100])
         for i in range(r.choice([2, 3, 4, 5])):
             size = r.choice([1, adj, adj + 1, 0x10, 0x40, 0x100])
-            funcs.append((off, size, "f%d" % i))
+            # now and then a FUNC line without a name: fill_symbol then sets an empty function name, which
+            # instruction_seems_valid_by_symbols takes for "no function here" (`!name.is_empty()`)
+            funcs.append((off, size, "" if r.chance(1, 8) else "f%d" % i))
             off += size + r.choice([0, 0, 0, 1, adj, 0x10, -1 if size > 1 else 0])
         if r.chance(1, 3):
             size = r.choice([0x10, 0x100])
@@ -338,7 +340,9 @@ class Gen:
         if place < 5:
             base = r.choice([0x80000000, 0x80001000, 0x7fff0000, 0x10000]) if bits == 32 else r.choice([0x80000000, 0x00007ffd00000000, 0x8000000080000000, 0x10000])
         elif place < 8:   # very top of the address space
-            slack = r.choice([0, 1, pw, 2 * pw, 4 * pw, 5])
+            # -1: the memory's end is one past what a u64 can hold (base + size = 2^64): memory_range() is None, only the
+            # context frame may come out (c05_stack_memory_edges)
+            slack = r.choice([0, 1, pw, 2 * pw, 4 * pw, 5, 0, -1])
             base = (top + 1 if bits == 32 else U64) - length - slack
             if bits == 32 and r.chance(1, 4):
                 base = U64 - length - slack          # memory base beyond what a 32-bit register can address
